@@ -5,9 +5,9 @@ Definition parser (A : Type) := bytes -> option (A * bytes).
 Definition ret {A} (a : A) : parser A := fun s => Some (a, s).
 Definition bind {A B} (p : parser A) (f : A -> parser B) : parser B :=
   fun s => match p s with Some (a, r) => f a r | None => None end.
-Notation "x <- p ;; q" := (bind p (fun x => q)) (at level 61, p at next level, right associativity).
+Notation "x <- p ;; q" := (bind p (fun x => q)) (at level 60, p at next level, right associativity).
 Notation "' pat <- p ;; q" := (bind p (fun x => match x with pat => q end))
-  (at level 61, pat pattern, p at next level, right associativity).
+  (at level 60, pat pattern, p at next level, right associativity).
 
 Definition p_raw (n : nat) : parser bytes :=
   fun s => if (n <=? List.length s)%nat then Some (firstn n s, skipn n s) else None.
